@@ -124,6 +124,9 @@ theorem ObjsExt.append (a : List PObj) (x : PObj) : ObjsExt a (a ++ [x]) := fun 
     · rw [List.getElem?_eq_none h'] at h; cases h
   exact ⟨o, by rw [List.getElem?_append_left hlt]; exact h, Evolves.refl o⟩
 
+theorem ObjsExt.appendList (a t : List PObj) : ObjsExt a (a ++ t) := fun _ o h =>
+  ⟨o, getElem?_append_of_some h t, Evolves.refl o⟩
+
 theorem ObjsExt.set {a : List PObj} {i : Nat} {o o' : PObj} (ho : a[i]? = some o) (he : Evolves o o') :
     ObjsExt a (a.set i o') := fun j x h => by
   by_cases hij : i = j
@@ -164,7 +167,10 @@ theorem step_ext {c : Cfg} (hc : c.BootGood) (s : St) (ev : Ev) (h : Inv c.clk s
             exact ObjsExt.append _ _
       · rw [(bootTimeCall_inv hc h.kern.btime h.ps).2]; exact ObjsExt.refl _
       · split <;> exact ObjsExt.refl _
-      · rw [(processIter_inv hc h.kern.btime h.ps).2]; exact ObjsExt.refl _
+      · obtain ⟨t, ht⟩ := (processIter_shape c s.kern s.ps).1
+        rw [ht]; exact ObjsExt.appendList _ _
+      · exact ObjsExt.refl _
+      · split <;> exact ObjsExt.refl _
 
 theorem run_ext {c : Cfg} (hc : c.BootGood) (h : List Ev) : ∀ (s : St), HistOK h → Inv c.clk s →
     ObjsExt s.ps.objs (run c s h).ps.objs := by
